@@ -76,3 +76,29 @@ def run_guarded(fn, timeout):
     if not data:
         return ("raised", "child died without a result")
     return pickle.loads(data)
+
+
+class TimeLimitExceeded(Exception):
+    pass
+
+
+class time_limit(object):
+    """with time_limit(seconds): ...  -- raises TimeLimitExceeded in the main thread if the body runs longer.
+    A backstop for sequential code that stops returning (a genuine non-termination is then reported as such);
+    the limit is far above the normal duration, so verdicts on terminating code never depend on it."""
+
+    def __init__(self, seconds):
+        self.seconds = seconds
+
+    def _handler(self, signum, frame):
+        raise TimeLimitExceeded("no result after %s s" % self.seconds)
+
+    def __enter__(self):
+        self.old = signal.signal(signal.SIGALRM, self._handler)
+        signal.setitimer(signal.ITIMER_REAL, self.seconds)
+        return self
+
+    def __exit__(self, *a):
+        signal.setitimer(signal.ITIMER_REAL, 0)
+        signal.signal(signal.SIGALRM, self.old)
+        return False
